@@ -516,6 +516,8 @@ func (t *tracer) afterFailedCommit(i int, r string) {
 	for p := uint64(2); p < v.hwm; p++ {
 		if !v.used[p] && !inMem[p] {
 			t.rep.violation("C07", "monitor", "leak-after-failed-tx", fmt.Sprintf("op %d: after the failed transaction page %d is neither referenced by the committed state nor free/pending in memory (the next commit would persist the leak)", i, p), t.replayObj(i))
+			// the same observation is C10's: space that no transaction uses is lost to the allocator
+			t.rep.violation("C10", "monitor", "free-page-lost-after-failed-tx", fmt.Sprintf("op %d: page %d was reusable before the failed transaction; afterwards it is neither referenced, free nor pending: it can never be reused", i, p), t.replayObj(i))
 			break
 		}
 	}
@@ -618,6 +620,9 @@ func traceEngine() {
 		if pi%6 == 4 {
 			ops = readerProgram(rng)
 		}
+		if pi%12 == 7 {
+			ops = rollbackAfterFrees(rng)
+		}
 		if pi%6 == 2 {
 			// a size limit small enough that some commits are rejected (failed transactions
 			// inside spill / commitFreelist), followed by further transactions
@@ -682,6 +687,35 @@ func readerProgram(rng *rand.Rand) []Op {
 }
 
 // steadyOverwrite: the same keys rewritten by 70 consecutive transactions, no readers.
+// rollbackAfterFrees: a write transaction that frees pages eagerly (DeleteBucket of a paged
+// bucket, with or without further edits) is rolled back by the user; the deleted bucket is still
+// part of the committed state, and the following writers must not recycle its pages.
+func rollbackAfterFrees(rng *rand.Rand) []Op {
+	ops := []Op{{K: "beginw"}, {K: "mkb", Tx: "w", Key: "victim"}, {K: "mkb", Tx: "w", Key: "other"}}
+	nk := 150 + rng.Intn(300)
+	for k := 0; k < nk; k++ {
+		ops = append(ops, Op{K: "put", Tx: "w", Path: []string{"victim"}, Key: fmt.Sprintf("v%05d", k), Val: strings.Repeat("x", 40+k%60)})
+	}
+	ops = append(ops, Op{K: "commit"})
+	for round := 0; round < 2+rng.Intn(3); round++ {
+		ops = append(ops, Op{K: "beginw"}, Op{K: "rmb", Tx: "w", Key: "victim"})
+		if rng.Intn(2) == 0 {
+			ops = append(ops, Op{K: "put", Tx: "w", Path: []string{"other"}, Key: "tmp", Val: "y"})
+		}
+		ops = append(ops, Op{K: "rollback", Tx: "w"})
+		// writers that need pages
+		for c := 0; c < 3+rng.Intn(4); c++ {
+			ops = append(ops, Op{K: "beginw"})
+			for k := 0; k < 40+rng.Intn(80); k++ {
+				ops = append(ops, Op{K: "put", Tx: "w", Path: []string{"other"}, Key: fmt.Sprintf("o%05d", rng.Intn(500)), Val: strings.Repeat("z", 30+rng.Intn(200))})
+			}
+			ops = append(ops, Op{K: "commit"})
+		}
+		ops = append(ops, Op{K: "beginr", Tx: "r9"}, Op{K: "dump", Tx: "r9"}, Op{K: "endr", Tx: "r9"})
+	}
+	return ops
+}
+
 func steadyOverwrite(rng *rand.Rand, ps int) []Op {
 	ops := []Op{{K: "beginw"}, {K: "mkb", Tx: "w", Key: "s"}, {K: "commit"}}
 	nk := 20 + rng.Intn(100)
